@@ -103,6 +103,8 @@ pub fn handle_eval_with_publish(storage: &Arc<StorageEngine>, parts: &[RespFrame
         Err(e) => return Ok(RespFrame::error(format!("ERR {}", e))),
     };
     
+    // A script is one step: the storage clock stands still while it runs (no key expires in the middle of it)
+    let _clock = crate::storage::clock::freeze();
     match lua_engine.eval(script, keys, args, &ctx) {
         Ok(response) => Ok(response),
         Err(e) => {
